@@ -1,5 +1,6 @@
 """C05 — rolling appender never loses, duplicates, reorders or splits records.
 case format / comparison: gen/rollcommon.py (shared with C06, C17)."""
+import sys
 from gen import rollcommon as rc
 from gen.rollcommon import model_lines, compare, classify, describe, extra_coverage  # noqa: F401
 
@@ -303,5 +304,43 @@ def extra_checks(ctx, cases_, impl_lines, model_lines_):
     archive indices in `nat`, so these windows are exercised through C07's roller model (indices in N) - "only whole
     oldest files are discarded by the retention window" holds for every window the roller accepts."""
     from gen import xcheck
-    return xcheck.borrow(ctx, "C07", "retention window at the end of the u32 index space",
-                         lambda c: c[0] == 0 and c[1] > (1 << 32) - 100, n=120)
+    res = xcheck.borrow(ctx, "C07", "retention window at the end of the u32 index space",
+                        lambda c: c[0] == 0 and c[1] > (1 << 32) - 100, n=120)
+    return res or bg_repeat_checks(ctx, cases_)
+
+
+def bg_repeat_checks(ctx, cases_):
+    """The background-rotation histories are schedules the operating system chooses: the same histories are run
+    twice more, the two passes side by side (other interleavings of the appender with the rotation thread, other
+    coincidences of temp-file names within one second), each judged like the first pass."""
+    if ctx.get("release_pass"):
+        return []
+    from concurrent.futures import ThreadPoolExecutor
+    vc = ctx["vc"]
+    idx = [i for i, c in enumerate(cases_) if rc.bg_of(c[1])]
+    if not idx:
+        return []
+    cs = [cases_[i] for i in idx]
+    lines = [vc.show(c) for c in cs]
+    sub = dict(ctx, vh=ctx["vh_bg"])
+    with ThreadPoolExecutor(max_workers=2) as ex:
+        passes = list(ex.map(lambda _: rc.run_impl(sub, cs, lines), range(2)))
+    n = 0
+    for got in passes:
+        ml = model_lines(ctx, cs, lines, got) if "model_lines" in globals() else lines
+        mo = vc.run_lines([ctx["drv"]], ml, timeout_per_batch=600, crash_marker="xmodelcrash")
+        for c, ln, il, m in zip(cs, lines, got, mo):
+            try:
+                mv = vc.parse(m)
+            except Exception:
+                raise vc.Broken("corr:C05/model-run", "model failed on a repeated background case: %s" % m[:200])
+            try:
+                iv = vc.parse(il)
+            except Exception:
+                iv = b"unparsable:" + il[:100].encode()
+            n += 1
+            d = vc.safe_compare(sys.modules[__name__], c, iv, mv)
+            if d is not None:
+                return [("background rotation, the same history run again: %s" % d, {"case_line": ln})]
+    ctx.setdefault("xcheck", {})["background_histories_run_again"] = n
+    return []
